@@ -9,7 +9,7 @@ INFO = {
                  "indices; write -> read round trip through the real formatter and emit framing for symbolic (level, text index, tags, prefix) over 8 concrete texts",
         "thorough": "k up to 6",
     },
-    "stubs": ["mmap -> in-memory line store (seek/tell/readline at line starts)", "hr: parse_args / PenlogReader / print patched to feed and capture records",
+    "stubs": ["mmap -> in-memory line store (seek/tell/readline at line starts)", "hr: parse_args / PenlogReader / print patched to feed and capture records", "navigation obligations: JSON bodies of the six concrete lines parsed once at import (real parser: round-trip obligation)",
               "_ZstdFileHandler.file -> capturing stub"],
     "outside": ["zstd / gzip containers, real mmap, stdin/FIFO", "arbitrary message text: the text itself is not symbolic (newline-freeness / Unicode fidelity are properties of CPython's json)",
                 "very long lines beyond 10 kB"],
@@ -30,6 +30,8 @@ def obligations(tier, scratch):
     kmax = 4 if quick else 6
     for mode in ("forward", "head", "tail", "reverse"):
         for k in range(0, kmax + 1):
+            if quick and mode == "head" and k == 4:
+                continue  # islice over a symbolic count multiplies the paths: k <= 3 in the quick tier
             pats = ["p" * k] if k == 0 else (["p" * k, ("pn" * k)[:k]] if quick else ["p" * k, ("pn" * k)[:k], ("np" * k)[:k]])
             for pat in pats:
                 name = f"hr_{mode}_k{k}_{pat or 'empty'}"
@@ -41,7 +43,7 @@ def obligations(tier, scratch):
 def {name}({pr + ", " if k else ""}th: int, n: int, last_nl: bool) -> bool:
     """
 {pres}
-    pre: 2 <= th <= 6
+    pre: {'2 <= th <= 6' if k <= 2 or not quick else '3 <= th <= 5'}
     pre: 1 <= n <= {k + 2}{"" if (k <= 2 and mode in ("tail", "reverse")) or not quick else chr(10) + "    pre: last_nl"}
     post: _
     """
